@@ -247,6 +247,20 @@ type c20env struct {
 	lastOp  string
 	lastRes c20res
 	haveMem bool
+	nSig    map[string]int
+}
+
+// fail records a direct-oracle failure; a recorded class is written out at most 25 times per
+// run (every occurrence is still counted in the distribution), so that thorough runs stay
+// readable; signatures that are not a recorded class carry the whole op and are all written.
+func (e *c20env) fail(sig, detail string) {
+	if e.nSig == nil {
+		e.nSig = map[string]int{}
+	}
+	e.nSig[sig]++
+	if e.nSig[sig] <= 25 {
+		e.c.Fail(sig, detail)
+	}
 }
 
 func (e *c20env) reset() {
@@ -313,7 +327,7 @@ func (e *c20env) line(l string) {
 	if res.line(false) != e.lastRes.line(false) {
 		sig := c20classify(w[1:], e.lastRes, res)
 		e.c.Count("differs/" + strings.SplitN(sig, ":", 2)[0])
-		e.c.Fail(sig, fmt.Sprintf("%s: MemDB=[%s] GoLevelDB=[%s]", opText, e.lastRes.line(false), res.line(false)))
+		e.fail(sig, fmt.Sprintf("%s: MemDB=[%s] GoLevelDB=[%s]", opText, e.lastRes.line(false), res.line(false)))
 	}
 }
 
